@@ -340,6 +340,8 @@ theorem applyG_BidInv (ret : Bool) (s s' : Sys) (a : Act) (hi : BidInv s) (ha : 
       · simp at ha
       · have hsafe := finStep_bidsafe s.bidStored ret prov (getParty s prov) sCanceled false
         split at ha
+        · simp at ha
+        split at ha
         · split at ha
           · simp at ha; subst ha; exact hi
           · rename_i x' es heq
@@ -356,6 +358,8 @@ theorem applyG_BidInv (ret : Bool) (s s' : Sys) (a : Act) (hi : BidInv s) (ha : 
     · split at ha
       · simp at ha
       · have hsafe := finStep_bidsafe s.bidStored ret prov (getParty s prov) sCompleted false
+        split at ha
+        · simp at ha
         split at ha
         · split at ha
           · simp at ha; subst ha; exact hi
